@@ -65,6 +65,7 @@ def cli_job(job):
         "trace": [{"k": e["k"], "ev": e["ev"], "path": e["path"], "cleanup": e.get("cleanup"), "names": e.get("names")} for e in r["trace"]],
         "tmp_left": r["tmp_left"],
         "cwd_changed": r["cwd_changed"],
+        "cwd_new": r.get("cwd_new", {}),
         "diverged": diverged,
     }
 
